@@ -412,7 +412,7 @@ class TensoredConfusionMatrices:
         if not isinstance(other, type(self)):
             return NotImplemented
         return (
-            self.qubits == other.qubits
+            self.measure_qubits == other.measure_qubits
             and self.repetitions == other.repetitions
             and self.timestamp == other.timestamp
             and all(
